@@ -112,29 +112,91 @@ Definition f20_pairs (a b : cls) : bool :=
   | _, _ => false
   end.
 
-(* ------------------------------------------------------------------ C21: fixed-length tuple arity *)
-(* "fixed-length tuple arity aside": wherever the target has a fixed-length tuple, the value reaching it
-   has that many items.  Stated on the target type and the value alone: every collection met at a
-   tuple[t1..tn] position has n items. *)
-Fixpoint arity_ok (t : ty) (v : val) {struct t} : Prop :=
+(* ------------------------------------------------------------------ C21: side conditions on (target type, value) *)
+(* what iterating the value yields: the items of a list/tuple/set, the keys of a dict *)
+Definition items_of (v : val) : list val :=
+  match v with VList l | VTuple l | VSet _ l => l | VDict kv => map fst kv | _ => [] end.
+
+(* "fixed-length tuple arity aside": wherever the target type has a tuple[t1..tn], the collection that reaches it
+   has n items.  Stated on the target type and the value alone (a Union must be fine whichever arm is taken, a
+   MultiInputObj whether the value is taken as the list or as its single item). *)
+Fixpoint arity_ok (t : ty) (v : val) {struct t} : bool :=
   match t with
-  | TBase _ => True
-  | TList a | TSet _ a | TTupleVar a => Forall (arity_ok a) (children v)
-  | TMulti a => arity_ok a v /\ Forall (arity_ok a) (children v)
+  | TBase _ => true
+  | TList a | TSet _ a | TTupleVar a => forallb (arity_ok a) (items_of v)
+  | TMulti a => arity_ok a v && forallb (arity_ok a) (items_of v)
   | TTuple ts =>
-      is_coll v = true ->
-      List.length (match v with VDict kv => map fst kv | _ => children v end) = List.length ts /\
-      (fix go (ts : list ty) (l : list val) : Prop :=
-         match ts, l with
-         | a :: r, x :: xs => arity_ok a x /\ go r xs
-         | _, _ => True
-         end) ts (children v)
+      negb (is_coll v) ||
+      (Nat.eqb (List.length (items_of v)) (List.length ts) &&
+       (fix go (ts : list ty) (l : list val) : bool :=
+          match ts, l with
+          | a :: r, x :: xs => arity_ok a x && go r xs
+          | _, _ => true
+          end) ts (items_of v))
   | TDict k x =>
       match v with
-      | VDict kv => Forall (fun p => arity_ok k (fst p) /\ arity_ok x (snd p)) kv
-      | _ => True
+      | VDict kv => forallb (fun p => arity_ok k (fst p) && arity_ok x (snd p)) kv
+      | _ => true
       end
-  | TUnion ts => (fix go (ts : list ty) : Prop := match ts with [] => True | a :: r => arity_ok a v /\ go r end) ts
+  | TUnion ts => forallb (fun a => arity_ok a v) ts
+  end.
+
+(* finding F21a: a collection meets a [bytes] position of the target type *)
+Fixpoint bytes_hit (t : ty) (v : val) {struct t} : bool :=
+  match t with
+  | TBase c => cls_eqb c CBytes && is_coll v
+  | TList a | TSet _ a | TTupleVar a => existsb (bytes_hit a) (items_of v)
+  | TMulti a => bytes_hit a v || existsb (bytes_hit a) (items_of v)
+  | TTuple ts =>
+      (fix go (ts : list ty) (l : list val) : bool :=
+         match ts, l with
+         | a :: r, x :: xs => bytes_hit a x || go r xs
+         | _, _ => false
+         end) ts (items_of v)
+  | TDict k x =>
+      match v with
+      | VDict kv => existsb (fun p => bytes_hit k (fst p) || bytes_hit x (snd p)) kv
+      | _ => false
+      end
+  | TUnion ts => existsb (fun a => bytes_hit a v) ts
+  end.
+
+(* may storing v under type t leave an unhashable object? *)
+Fixpoint unhash_after (t : ty) (v : val) {struct t} : bool :=
+  match t with
+  | TBase KAny => negb (hashable v)
+  | TBase _ => false
+  | TList _ | TDict _ _ | TMulti _ | TSet false _ => true
+  | TSet true _ => false
+  | TTupleVar a => existsb (unhash_after a) (items_of v)
+  | TTuple ts =>
+      (fix go (ts : list ty) (l : list val) : bool :=
+         match ts, l with
+         | a :: r, x :: xs => unhash_after a x || go r xs
+         | _, _ => false
+         end) ts (items_of v)
+  | TUnion ts => existsb (fun a => unhash_after a v) ts
+  end.
+
+(* finding F21b: an item of a set / a key of a dict of the target type would be unhashable *)
+Fixpoint unhash_hit (t : ty) (v : val) {struct t} : bool :=
+  match t with
+  | TBase _ => false
+  | TSet _ a => existsb (fun x => unhash_after a x || unhash_hit a x) (items_of v)
+  | TList a | TTupleVar a => existsb (unhash_hit a) (items_of v)
+  | TMulti a => unhash_hit a v || existsb (unhash_hit a) (items_of v)
+  | TTuple ts =>
+      (fix go (ts : list ty) (l : list val) : bool :=
+         match ts, l with
+         | a :: r, x :: xs => unhash_hit a x || go r xs
+         | _, _ => false
+         end) ts (items_of v)
+  | TDict k x =>
+      match v with
+      | VDict kv => existsb (fun p => unhash_after k (fst p) || unhash_hit k (fst p) || unhash_hit x (snd p)) kv
+      | _ => false
+      end
+  | TUnion ts => existsb (fun a => unhash_hit a v) ts
   end.
 
 (* ------------------------------------------------------------------ the domain of the idempotence theorem *)
@@ -145,4 +207,28 @@ Fixpoint union_free (t : ty) : bool :=
   | TTuple ts => forallb union_free ts
   | TDict k x => union_free k && union_free x
   | TUnion _ => false
+  end.
+
+(* ------------------------------------------------------------------ the domain of the C21 theorem (target side) *)
+Definition scalar_value_classes : list cls :=
+  [CNone; CBool; CInt; CFloat; CStr; CBytes; CPath; CFile FFile; CFile FText; CFile FDir].
+
+(* whatever is stored under such a type is hashable *)
+Fixpoint hashable_ty (t : ty) : bool :=
+  match t with
+  | TBase c => existsb (cls_eqb c) scalar_value_classes
+  | TTuple ts | TUnion ts => forallb hashable_ty ts
+  | TTupleVar a => hashable_ty a
+  | TSet true _ => true
+  | _ => false
+  end.
+
+(* no [bytes] position (finding F21a); set items and dict keys of hashable types only (finding F21b) *)
+Fixpoint c21_target_ok (t : ty) : bool :=
+  match t with
+  | TBase c => negb (cls_eqb c CBytes) && (cls_eqb c KAny || existsb (cls_eqb c) scalar_value_classes)
+  | TList a | TTupleVar a | TMulti a => c21_target_ok a
+  | TSet _ a => c21_target_ok a && hashable_ty a
+  | TTuple ts | TUnion ts => forallb c21_target_ok ts
+  | TDict k x => c21_target_ok k && hashable_ty k && c21_target_ok x
   end.
